@@ -1,7 +1,7 @@
 (* Property C13 — callback results map to lexer output as documented; Skip is transparent.
    Only final statements; proofs in Runtime/CallbacksProofs.v. *)
 From Coq Require Import List NArith.
-From LogosV Require Import Engine.Model Runtime.Callbacks Runtime.CallbacksProofs.
+From LogosV Require Import Engine.Model Runtime.Callbacks Runtime.CallbacksProofs Front.Closure.
 Import ListNotations.
 Local Open Scope N_scope.
 
@@ -30,3 +30,12 @@ Theorem C13_bump_extends_and_excludes : forall attempt act fb (w : list byte) p 
   act l start e = (AEmit, bump) ->
   next_from attempt act fb w p (S fuel) start = ([], Yield (Item true (Some l) start (e + bump)) (e + bump)).
 Proof. exact bump_extends_and_excludes. Qed.
+
+(* The callback that runs is the one that was written: of an inline callback `|arg| body` the derive keeps every token
+   of the body - the body is the token list after `|arg|`, or that list is one braced block and the body its content.
+   Regression lemma for finding F12: as it was, a leading group was taken as the whole body. *)
+Theorem C13_inline_body_complete : forall rest, body_of rest = rest \/ rest = [TGroup Brace (body_of rest)].
+Proof. exact body_of_complete. Qed.
+Theorem C13_old_inline_body_drops_tokens :
+  exists rest, is_block rest = false /\ body_old rest <> rest /\ (length (body_old rest) < length rest)%nat.
+Proof. exact body_old_drops_tokens. Qed.
